@@ -4,8 +4,15 @@ from .. import gen, oracles, tablecheck
 CLAIM = True
 MODULE = "SysLoss.Props.C07"
 THEOREMS = ["SysLoss.C07." + t for t in (
-    "energy_nophase", "energy_phase", "lookup_self_of_nodup", "energies_add_up", "total_eff_le_100", "subs_spec", "total_spec", "average_spec", "domain_step", "domain_table")] + ["SysLoss.domInv_foldl", "SysLoss.C07aux_domain_step"]
-LEVEL_TEXT = ("Theorems (Lean 4): 24 h energy = power x 24 resp. power x 24 x the phase's share; the per-phase energies of a row add up to the energy of its duration-weighted average; each Subsystem row carries its source's Iout and Power and the sum of the losses of exactly the rows attributed to it, with Yes iff one of them warns; System total = sums over the subsystems with efficiency <= 100 when 0 <= Loss <= Power; System average = duration-weighted means; a row's Domain is its own name (Source), the source above the selected input (PMux) or its parent's domain. Tied to the code on every run: Domain, Subsystem / total / average rows and energies re-assembled by the model from the implementation's (v,i) (1e-9) on multi-source systems built in random interleavings, and an oracle that recomputes every aggregate from the component rows and the tree.")
+    "energy_nophase", "energy_phase", "lookup_self_of_nodup", "energies_add_up", "total_eff_le_100", "subs_spec", "total_spec", "average_spec", "domain_step", "domain_table",
+    # Props/C07Total: the assumptions of total_eff_le_100 discharged from the model's own table (via the C02 balance)
+    "pl_pwr_nonneg", "pl_loss_nonneg", "switch_vout_le", "mux_vout_le", "rows_loss_nonneg", "rowOf_nonneg", "total_cells",
+    "total_pwr_eq_sources", "rows_domain_covered", "total_loss_eq_sum", "total_loss_le_power_partial", "total_pwr_sub_loss_partial",
+    "total_eff_le_100_table_partial", "total_loss_le_power_full_fails", "D_feeder", "domain_balance", "muxInputsPlain_of_oneMux",
+    "subsystem_loss_le_power_partial", "subsystem_loss_le_power_oneMux_partial", "subsystem_eff_le_100_partial",
+    "subsystem_loss_le_power_full_fails", "table_energies_add_up", "table_total_energies_add_up")] + ["SysLoss.domInv_foldl", "SysLoss.C07aux_domain_step"]
+MODULES = ["SysLoss.Props.C07", "SysLoss.Props.C07Total"]
+LEVEL_TEXT = ("Theorems (Lean 4): 24 h energy = power x 24 resp. power x 24 x the phase's share; the per-phase energies of a row add up to the energy of its duration-weighted average; each Subsystem row carries its source's Iout and Power and the sum of the losses of exactly the rows attributed to it, with Yes iff one of them warns; System total = sums over the subsystems with efficiency <= 100 when 0 <= Loss <= Power - and Props/C07Total discharges that premise from the model itself: in every exact steady state of a well-formed tree (PMux included) every row has Power, Loss >= 0, the System total row has Power = sum of source powers, Loss = sum of all losses and 0 <= Loss <= Power, hence efficiency within [0,100] (`total_eff_le_100_table_partial`), likewise every Subsystem row (`subsystem_eff_le_100_partial`), and on the assembled multi-phase table the per-phase energy cells of a row add up to 24 h x its duration-weighted average power (`table_energies_add_up`, `table_total_energies_add_up`); partial only through the recorded findings F01 / F35 (negative Source with rs, Converter with vo = 0: `total_loss_le_power_full_fails`); System average = duration-weighted means; a row's Domain is its own name (Source), the source above the selected input (PMux) or its parent's domain. Tied to the code on every run: Domain, Subsystem / total / average rows and energies re-assembled by the model from the implementation's (v,i) (1e-9) on multi-source systems built in random interleavings, and an oracle that recomputes every aggregate from the component rows and the tree.")
 LEVEL_NOTE = ("Genuine defect found by this check and repaired: Domain carried over from the previously listed row (fix 8389da8). `domain_table` is the global statement for every valid topological order (induction over the table loop, Proofs/Domain.lean): each Source row is its own domain and every other non-mux row carries the domain of its first parent's row.")
 RULE = ("1-4 sources, a mux joining 0-4 of them at depth 0-2, children added in random interleavings (varies node ids and the "
         "topological order), phases on half of the systems, energy=True; non-trivial = >= 2 sources or phases")
@@ -13,7 +20,8 @@ ASSUMPTIONS = ["aggregates are compared with sums recomputed from the component 
 
 
 def gen_fn(rng):
-    return gen.gen_system(rng, phases=0.5, n_sources=rng.choice([1, 2, 2, 3, 4]), p_mux=0.6, max_nodes=18, p_neg_src_rs=0.0)
+    return gen.gen_system(rng, phases=0.5, n_sources=rng.choice([1, 2, 2, 3, 4]), p_mux=0.6, max_nodes=18, p_neg_src_rs=0.0,
+                          p_group=rng.choice([0.0, 0.3]))
 
 
 def solve_kw(rng):
